@@ -178,11 +178,16 @@ impl DomainResourceFilter {
     }
 }
 
+/// Trie key of a name: its labels from the root down, each preceded by its length (like on the
+/// wire), so that a key is a prefix of another exactly when the name is a label-wise suffix of the
+/// other (`foo.bar` vs `foobar`, `_my.local` vs `_mysrv.local` must not collide)
 fn get_key(name: &Name) -> Vec<u8> {
     name.get_labels()
         .iter()
         .rev()
-        .flat_map(|label| label.to_string().into_bytes())
+        .flat_map(|label| {
+            std::iter::once(label.len() as u8).chain(label.as_bytes().iter().copied())
+        })
         .collect()
 }
 
